@@ -35,7 +35,7 @@ def bounds(tier):
 
 
 def goals(tier):
-    return ["three-modules", "records-sharing-an-id", "annotated-participants", "identical-sequence-twins", "product", "error-InvalidSequence", "error-DuplicateModules", "error-MissingModule", "palindromic-start-on-chain",
+    return ["three-modules", "records-sharing-an-id", "annotated-participants", "rotated-and-respelled-participants", "several-unused-modules-sharing-an-id", "identical-sequence-twins", "product", "error-InvalidSequence", "error-DuplicateModules", "error-MissingModule", "palindromic-start-on-chain",
             "self-loop-module", "unused-module", "revcomp-starts", "equal-starts", "several-reasons"]
 
 
@@ -64,7 +64,21 @@ def space_size(tier):
                 # multisets with at least one repeated module type
                 per_vec += (math.comb(m + k - 1, k) - math.comb(m, k)) * math.factorial(k)
         total += w * w * per_vec
+        if sp["kmax"] >= 3:
+            # k = 3: the graphs for which the model predicts a product with two modules left over are repeated with shared / absent ids
+            A = ALPHA[sp["enz"]][:w]
+            types = [(s, e) for s in A for e in A]
+            for vup in A:
+                for vdown in A:
+                    for multiset in itertools.combinations_with_replacement(range(len(types)), 3):
+                        if several_left_over(vup, vdown, [types[i] for i in multiset]):
+                            total += math.factorial(3) * 2
     return total
+
+
+def several_left_over(vup, vdown, mods):
+    m = rm.assembly_outcome(vup, vdown, [tuple(x) for x in mods])
+    return m["kind"] == "product" and len(m["unused"]) >= 2
 
 
 # ---------------------------------------------------------------------------------------------
@@ -130,7 +144,12 @@ def evaluate(st, scn):
     M, V = gen.generic_classes(enz)
     idmode = scn.get("ids", "distinct")
     v = V(gen.crec(vs[0], "vec"))
-    if idmode == "decorated":
+    if idmode == "rotated":
+        # every participant stored at another rotation (modules: origin in the middle of the record, which is inside the
+        # cassette for these short plasmids; vector: origin inside its first overhang), lower-case for odd module indices
+        v = V(gen.crec(rm.rot_right(vs[0], len(vs[0]) - 2), "vec"))
+        ents = [M(gen.crec(rm.rot_right(m[0] if i % 2 == 0 else m[0].lower(), len(m[0]) // 2), "mod%d" % i)) for i, m in enumerate(ms)]
+    elif idmode == "decorated":
         v = V(gen.contained(vs[0], "annotated", "vec"))
         ents = [M(gen.contained(m[0], "annotated", "mod%d" % i)) for i, m in enumerate(ms)]
     elif idmode == "distinct":
@@ -192,9 +211,9 @@ def evaluate(st, scn):
 def idmodes(sp, k):
     """identifier assignments of the module records: distinct ids everywhere; for the k<=2 spaces also one shared id and no id at all"""
     if sp["kmax"] <= 2 and k >= 2:
-        return ["distinct", "same", "default", "decorated", "twins"]
+        return ["distinct", "same", "default", "decorated", "rotated", "twins"]
     if sp["kmax"] <= 2:
-        return ["distinct", "decorated"]
+        return ["distinct", "decorated", "rotated"]
     if k >= 2:
         return ["distinct", "twins"]
     return ["distinct"]
@@ -210,7 +229,11 @@ def run_unit(unit, st, tier):
     for k in range(1, sp["kmax"] + 1):
         for multiset in itertools.combinations_with_replacement(range(len(types)), k):
             mods = [types[i] for i in multiset]
-            for perm, idmode in [(pm, im) for pm in itertools.permutations(range(k)) for im in idmodes(sp, k)]:
+            modes = idmodes(sp, k)
+            if k == 3 and several_left_over(vup, vdown, mods):
+                modes = modes + ["same", "default"]       # the warning must name every left-over module, whatever their ids
+                st.goal("several-unused-modules-sharing-an-id")
+            for perm, idmode in [(pm, im) for pm in itertools.permutations(range(k)) for im in modes]:
                 scn = dict(enz=enz, vup=vup, vdown=vdown, mods=[list(m) for m in mods], perm=list(perm))
                 if idmode == "twins":
                     if len(set(mods)) == len(mods):
@@ -220,6 +243,9 @@ def run_unit(unit, st, tier):
                 elif idmode == "decorated":
                     scn["ids"] = idmode
                     st.goal("annotated-participants")
+                elif idmode == "rotated":
+                    scn["ids"] = idmode
+                    st.goal("rotated-and-respelled-participants")
                 elif idmode != "distinct":
                     scn["ids"] = idmode
                     st.goal("records-sharing-an-id")
